@@ -78,14 +78,22 @@ theorem runScript_grow (self : Nat) : ∀ (acts : List Act) (st : St), Grow st (
     | cancelSelf => simpa [runScript] using (cancel_grow st self).trans (ih _)
 
 theorem finish_grow (st : St) (id : Nat) (r : Req) (res : Result) :
-    Grow st (finish st id r res).1 ∧ ∀ e ∈ (finish st id r res).1.reqs, e.1 ≠ id := by
-  have hs := runScript_grow id r.script st
-  unfold finish
-  generalize runScript id st r.script = rs at hs
-  obtain ⟨st1, outs⟩ := rs
-  simp only at hs ⊢
-  refine ⟨hs.trans ?_, fun e he => (mem_erase he).2⟩
-  exact grow_of_sub rfl rfl rfl rfl rfl rfl rfl (fun e he => ⟨e, (mem_erase he).1, rfl, rfl⟩)
+    Grow st (finish st id r res).1 ∧ ∀ e ∈ (finish st id r res).1.reqs, e.1 = id → e.2.born = st.now := by
+  generalize hst0 : ({ st with reqs := erase st.reqs id, called := st.called ++ [r.serial] } : St) = st0
+  have hfin : (finish st id r res).1 = (runScript id st0 r.script).1 := by rw [← hst0]; rfl
+  rw [hfin]
+  have g0 : Grow st st0 := by
+    rw [← hst0]
+    exact grow_of_sub rfl rfl rfl rfl rfl rfl rfl (fun e he => ⟨e, (mem_erase he).1, rfl, rfl⟩)
+  have gs := runScript_grow id r.script st0
+  refine ⟨g0.trans gs, ?_⟩
+  intro e he hk
+  obtain ⟨_, _, _, _, _, extra, _, _, hold⟩ := gs
+  rcases hold e he with ⟨e0, he0, hk0, _⟩ | ⟨hb, _⟩
+  · exfalso
+    rw [← hst0] at he0
+    exact (mem_erase he0).2 (hk0.trans hk)
+  · rw [hb, ← hst0]
 
 theorem applyReply_grow (st : St) (rep : Reply) : Grow st (applyReply st rep).1 := by
   cases rep with
@@ -180,7 +188,7 @@ theorem foldl_onTimeout_grow {st1 : St} (items : List Nat) :
           · rw [← hb0]; exact hd id h e0 he0 (hk0.trans hk)
           · rw [hb]; exact hg.1
         · simp only [List.mem_singleton] at h
-          exact absurd (hk.trans h) (hfin.2 e he)
+          rw [hfin.2 e he (hk.trans h)]; exact hg.1
     have := ih (done ++ [x]) (onTimeout acc x) key.1 key.2
     simpa [List.foldl_cons, List.append_assoc] using this
 
